@@ -80,28 +80,39 @@ def compose_job(cfg):
     ids = list(range(docs.CLASS_COUNT[n]))
     rnd.shuffle(ids)
     ids = ids[:3 if quick else 12] + [docs.CLASS_COUNT[n] - 1]
+    from qiskit import QuantumRegister
     for ql in lists:
         N = n if ql is None else max(max(ql) + 1, n)
         mapping = {q: i for i, q in enumerate(ql)} if ql is not None else None
-        prep = QuantumCircuit(N)
-        rp = {"n": n, "connectivity": conn, "measured_qubits": ql, "register": N}
-        try:
-            circs = full_state_tomography_circuits(prep, conn, ql)
-            bad = [b for c in circs for b in off_edge(n, conn, adapt.gates_of(c), mapping)]
-            ok = not bad and len(circs) == 2 ** n + 1
-            what = f"full_state_tomography_circuits on {n}-{conn} with measured_qubits={ql}: gates not on mapped edges {bad[:3]}"
-        except Exception as e:
-            ok, what = False, f"full_state_tomography_circuits raised {type(e).__name__}: {e} (measured_qubits={ql})"
-        out.append(("C02.compose.tomography", ok, f"compose-fst:{n}:{conn}:{ql}", what, rp))
-        for k in ids:
-            st = Stabilizer(LC(k).get_graph())
+        # the measured list may be given as ints or as Qubit objects (documented), on a circuit with one or several registers
+        variants = [("ints", None)]
+        if ql is not None:
+            variants.append(("qubit-objects", None))
+            if N >= 2:
+                cut = rnd.randrange(1, N)
+                variants += [("ints", cut), ("qubit-objects", cut)]
+        for style, cut in variants:
+            prep = QuantumCircuit(N) if cut is None else QuantumCircuit(QuantumRegister(cut, "a"), QuantumRegister(N - cut, "b"))
+            arg = ql if (ql is None or style == "ints") else [prep.qubits[i] for i in ql]
+            rp = {"n": n, "connectivity": conn, "measured_qubits": ql, "register": N, "given_as": style, "registers": [N] if cut is None else [cut, N - cut]}
+            tag = f"{ql}:{style}:{cut}"
             try:
-                c = stabilizer_measurement_circuit(prep, st, conn, ql)
-                bad = off_edge(n, conn, adapt.gates_of(c), mapping)
-                ok, what = not bad, f"stabilizer_measurement_circuit on {n}-{conn} class {k} measured_qubits={ql}: gates not on mapped edges {bad[:3]}"
+                circs = full_state_tomography_circuits(prep, conn, arg)
+                bad = [b for c in circs for b in off_edge(n, conn, adapt.gates_of(c), mapping)]
+                ok = not bad and len(circs) == 2 ** n + 1
+                what = f"full_state_tomography_circuits on {n}-{conn} with measured_qubits={ql} ({style}, registers {rp['registers']}): gates not on mapped edges {bad[:3]}"
             except Exception as e:
-                ok, what = False, f"stabilizer_measurement_circuit raised {type(e).__name__}: {e} (measured_qubits={ql})"
-            out.append(("C02.compose.stabilizer_measurement", ok, f"compose-smc:{n}:{conn}:{k}:{ql}", what, dict(rp, class_id=k)))
+                ok, what = False, f"full_state_tomography_circuits raised {type(e).__name__}: {e} (measured_qubits={ql}, {style})"
+            out.append(("C02.compose.tomography", ok, f"compose-fst:{n}:{conn}:{tag}", what, rp))
+            for k in ids:
+                st = Stabilizer(LC(k).get_graph())
+                try:
+                    c = stabilizer_measurement_circuit(prep, st, conn, arg)
+                    bad = off_edge(n, conn, adapt.gates_of(c), mapping)
+                    ok, what = not bad, f"stabilizer_measurement_circuit on {n}-{conn} class {k} measured_qubits={ql} ({style}, registers {rp['registers']}): gates not on mapped edges {bad[:3]}"
+                except Exception as e:
+                    ok, what = False, f"stabilizer_measurement_circuit raised {type(e).__name__}: {e} (measured_qubits={ql}, {style})"
+                out.append(("C02.compose.stabilizer_measurement", ok, f"compose-smc:{n}:{conn}:{k}:{tag}", what, dict(rp, class_id=k)))
     return out
 
 
@@ -175,6 +186,7 @@ def replay(data):
         hits = [r for r in config_job(cfg) if not r[1] and r[2] == key]
     elif key.startswith("compose-"):
         hits = [r for r in compose_job(cfg + (0, False)) if not r[1]]
+        hits += [r for r in compose_job(cfg + (1, False)) if not r[1]]
     elif "paulis" in inp:
         gens = [P.from_label(l) for l in inp["paulis"]]
         hits = [r for r in e2e.eval_state((inp["n"], inp["connectivity"], gens, inp.get("format", "matrix"), None)) if not r[1] and r[0].startswith("C02")]
